@@ -11,8 +11,13 @@ PLAN = dict(
         step("label-collision-probe-x86", "codegen-x86", "wf-x86", 2, 8, shards_thorough=1, args=["c14probe"]),
         step("label-collision-probe-a64", "codegen-a64", "wf-a64", 2, 8, shards_thorough=1, args=["c14probe"]),
         step("label-collision-probe-rv", "codegen-rv", "wf-rv", 2, 8, shards_thorough=1, args=["c14probe"]),
+        # the PRINTED x86-64 text (what `scc codegen` writes) of every corpus program and n random ones, assembled by GNU as after the
+        # syntax-only transliteration (not linked, not run): operand-size keywords, mnemonics and label syntax of the printer
+        step("assemble-x86", "native-x86", "c01", 40, 2000, shards_thorough=8, args=["asmonly"],
+             viol=r"class=assembler-rejects|class=label-collision-name-digits-e2e"),
     ],
-    rule="the REAL instruction list of every corpus program and of n random programs is checked by the asm_wf of its back end: x86-64 "
+    rule="(assemble-x86: the printed x86-64 assembly text of every corpus program and n random programs is accepted by GNU as after the NASM->GAS "
+         "syntax transliteration of harness/src/native.rs.) The REAL instruction list of every corpus program and of n random programs is checked by the asm_wf of its back end: x86-64 "
          "(Sem/X86Wf.v; inputs: corpus + random Fun programs with identifiers resembling generated names lab1, cleanup, asm_main, share_f_0, "
          "lift_f__7, x0, a0, types with many xtors, literals of every magnitude + direct linear-AxCut programs + print contexts), AArch64 "
          "(Sem/A64Wf.v; same inputs as C07), RISC-V (Sem/RVWf.v; print-free programs of codegen-all as in C08): each label defined once, every "
